@@ -10,6 +10,9 @@ MAY_PANIC_EXTRA = {
     'Buf::advance': 'panics when cnt > remaining',
     'BytesMut::split_to': 'panics when at > len',
     'BytesMut::split_off': 'panics when at > capacity',
+    'BytesMut::reserve': 'panics on capacity overflow (and the process aborts when the allocation fails): the amount must be bounded',
+    'BytesMut::with_capacity': 'panics on capacity overflow: the amount must be bounded',
+    'BytesMut::resize': 'panics on capacity overflow: the amount must be bounded',
     'Runtime::block_on': 'panics inside a runtime',
     'tokio::task::spawn::spawn': 'panics outside a runtime',
 }
@@ -249,7 +252,8 @@ class Graph:
                         if (c or '').startswith('tokio::'):
                             lab = 'tokio'      # runtime-context panics (no runtime / no time driver): the argument text is irrelevant to the key
                         src = Source(p, 'may-panic-call', short(c), lab, where, macro)
-                        src.discharged = lock_poison(t) or (consumed_prefix(self.facts, p, t.get('fn_sp') or sp, 'advance') if (c or '').endswith('>::advance') else None)
+                        src.discharged = lock_poison(t) or (consumed_prefix(self.facts, p, t.get('fn_sp') or sp, 'advance') if (c or '').endswith('>::advance') else None) \
+                            or (bounded_amount(self.facts, p, t.get('fn_sp') or sp) if (c or '').rsplit('::', 1)[-1] in ('reserve', 'with_capacity', 'resize', 'reserve_exact') else None)
                         out.append(src)
         for src in out:
             # the key names the enclosing *function*: code may move between a function, its closures and its async block
@@ -589,6 +593,39 @@ def consumed_prefix(facts, body_path, sp, what):
     proj_ok = any(pr[0] == 'tup' and pr[1] == 0 for pr in ob[1]) and any(pr[0] in ('variant', 'try') for pr in ob[1])
     if feeds and proj_ok and ('parse' in ob[0][1]):
         return 'the subtrahend is the length of the remainder returned by %s for the same buffer (a suffix of it)' % ob[0][1].rsplit('::', 1)[-1]
+    return None
+
+def bounded_amount(facts, body_path, sp):
+    """D5: an allocation request (`reserve(n)`, `with_capacity(n)`, `resize(n, _)`) whose amount is a literal / named constant, or
+    is capped by one (`n.min(K)`, `min(n, K)`, `cmp::min(K, n)`): neither a capacity overflow nor an allocation sized by the peer."""
+    rec = hir_owner(facts, body_path)
+    if rec is None:
+        return None
+    B = _hirq.Body(facts, rec)
+    cands = [n for n in B.nodes if n['k'] in ('MethodCall', 'Call') and n.get('sp') and
+             (list(n['sp'][:5]) == list(sp[:5]) or (n['sp'][0] == sp[0] and n['sp'][3:5] == sp[3:5]))
+             and (n.get('name') or (n.get('f') or {}).get('def', '').rsplit('::', 1)[-1]) in ('reserve', 'with_capacity', 'resize', 'reserve_exact')]
+    if len(cands) != 1 or not cands[0]['args']:
+        return None
+    def const(x):
+        x = _hirq.peel_refs(_hirq.resolve_expr(B, x))
+        v = _hirq.const_eval(facts, x)
+        return isinstance(v, int) and not isinstance(v, bool) and 0 <= v <= (1 << 31)
+    def capped(x, depth=0):
+        x = _hirq.peel_refs(_hirq.resolve_expr(B, x))
+        if const(x):
+            return True
+        if depth > 4:
+            return False
+        if x['k'] == 'MethodCall' and x['name'] == 'min' and len(x['args']) == 1:
+            return capped(x['recv'], depth + 1) or capped(x['args'][0], depth + 1)
+        if x['k'] == 'Call' and (x['f'].get('def') or '').rsplit('::', 1)[-1] == 'min' and len(x['args']) == 2:
+            return capped(x['args'][0], depth + 1) or capped(x['args'][1], depth + 1)
+        if x['k'] == 'Cast':
+            return capped(x['e'], depth + 1)
+        return False
+    if capped(cands[0]['args'][0]):
+        return 'the amount is a constant or capped by one'
     return None
 
 def lock_poison(term):
